@@ -89,30 +89,27 @@ def roSeekOk (ro : RO) (off : Nat) : Bool :=
 
 /-! ### sector size detection (HandleOpenFile / determineSectorSize) -/
 
-def detectSectorSize (read : Nat → Nat → Bytes) : Option Nat :=
-  let m1 := Gen.handler_determineSectorSize_magic1
-  let m2 := Gen.handler_determineSectorSize_magic2
-  let extra := Gen.handler_determineSectorSize_extraBytes
-  let probeLen := m1.length + extra + m2.length
-  Gen.handler_determineSectorSize_sectorSizes.find? (fun s =>
-    let buf := read (Gen.handler_psxPrefixSize + Gen.handler_determineSectorSize_systemAreaSectors * s) probeLen
-    buf.length == probeLen &&
-      (buf.take m1.length == m1 || slice buf (m1.length + extra) m2.length == m2))
+def probeLen : Nat :=
+  Gen.handler_determineSectorSize_magic1.length + Gen.handler_determineSectorSize_extraBytes +
+    Gen.handler_determineSectorSize_magic2.length
 
-/-- the detection reads with ReadAt; a short read at any candidate aborts the whole detection -/
+/-- the probed bytes carry the ISO 9660 signature, or (two bytes further) the PLAYSTATION one -/
+def probeMatch (buf : Bytes) : Bool :=
+  buf.take Gen.handler_determineSectorSize_magic1.length == Gen.handler_determineSectorSize_magic1 ||
+  slice buf (Gen.handler_determineSectorSize_magic1.length + Gen.handler_determineSectorSize_extraBytes)
+    Gen.handler_determineSectorSize_magic2.length == Gen.handler_determineSectorSize_magic2
+
+/-- the loop of determineSectorSize: ReadAt at sector 16 of each candidate; a short read aborts -/
+def detectGo (read : Nat → Nat → Bytes) : List Nat → Option Nat
+  | [] => none
+  | s :: rest =>
+    let buf := read (Gen.handler_psxPrefixSize + Gen.handler_determineSectorSize_systemAreaSectors * s) probeLen
+    if buf.length != probeLen then none
+    else if probeMatch buf then some s
+    else detectGo read rest
+
 def detectSectorSizeStrict (read : Nat → Nat → Bytes) : Option Nat :=
-  let m1 := Gen.handler_determineSectorSize_magic1
-  let m2 := Gen.handler_determineSectorSize_magic2
-  let extra := Gen.handler_determineSectorSize_extraBytes
-  let probeLen := m1.length + extra + m2.length
-  let rec go : List Nat → Option Nat
-    | [] => none
-    | s :: rest =>
-      let buf := read (Gen.handler_psxPrefixSize + Gen.handler_determineSectorSize_systemAreaSectors * s) probeLen
-      if buf.length != probeLen then none
-      else if buf.take m1.length == m1 || slice buf (m1.length + extra) m2.length == m2 then some s
-      else go rest
-  go Gen.handler_determineSectorSize_sectorSizes
+  detectGo read Gen.handler_determineSectorSize_sectorSizes
 
 def defaultSectorSize : Nat := 2352
 def detectMin : Nat := 0x200000
@@ -140,7 +137,7 @@ def walkSize (w : World) : Nat → Path → Nat
   | fuel + 1, p =>
     match w.stat p with
     | none => 0
-    | some (_, .file i) => match w.inode? i with | some f => f.content.size | none => 0
+    | some (_, .file i) => ((w.inode? i).map (·.content.size)).getD 0
     | some (q, .dir _) => ((dirNames w q).map (fun n => walkSize w fuel (p ++ [n]))).sum
     | some _ => 0
 
@@ -344,16 +341,18 @@ def step (cfg : Cfg) (w : World) (st : State) (r : Req) : World × State × Out 
   | .getDirSize raw =>
     (w, st, ⟨getDirSizeResult (walkSize w dirSizeFuel (cleanRequest raw)), false⟩)
 
-/-- the loop of serveConn over the bytes a client sends; `fuel` ≥ number of requests -/
-def serve (cfg : Cfg) : Nat → World → State → Bytes → Bytes → World × State × Bytes
-  | 0, w, st, _, acc => (w, st, acc)
-  | fuel + 1, w, st, input, acc =>
+/-- the loop of serveConn over the bytes a client sends; `fuel` ≥ number of requests.
+    Returns the final world and state, everything sent, and the number of input bytes consumed. -/
+def serve (cfg : Cfg) : Nat → World → State → Bytes → Bytes → Nat → World × State × Bytes × Nat
+  | 0, w, st, _, acc, used => (w, st, acc, used)
+  | fuel + 1, w, st, input, acc, used =>
     match decode input with
-    | .incomplete => (w, st, acc)
-    | .unknown _ => (w, st, acc)
+    | .incomplete => (w, st, acc, used + input.length)   -- the blocked read swallowed what there was
+    | .unknown _ => (w, st, acc, used + cmdSize)
     | .req r rest =>
       let (w', st', out) := step cfg w st r
-      if out.close then (w', st', acc ++ out.bytes)
-      else serve cfg fuel w' st' rest (acc ++ out.bytes)
+      let used' := used + (input.length - rest.length)
+      if out.close then (w', st', acc ++ out.bytes, used')
+      else serve cfg fuel w' st' rest (acc ++ out.bytes) used'
 
 end Ps3.Conn
